@@ -121,9 +121,10 @@ _ARR_ANN = re.compile(r"(NDArray|ndarray)")
 
 class AV:
     """abstract value"""
-    __slots__ = ("roots", "kind", "cls", "parts", "inner")
+    __slots__ = ("roots", "kind", "cls", "parts", "inner", "ecls")
 
-    def __init__(self, roots=frozenset(), kind="unk", cls=None, parts=None, inner=frozenset()):
+    def __init__(self, roots=frozenset(), kind="unk", cls=None, parts=None, inner=frozenset(), ecls=None):
+        self.ecls = ecls            # repo class of every element of a locally built container ("?empty": no element yet)
         # roots: input storages the object ITSELF may be (a view of); inner: input storages reachable through its
         # elements / fields (a locally built list of input arrays has roots = {} and inner = {p:...}).  ndarrays hold values.
         self.roots = frozenset(roots) if kind != "scalar" else frozenset()
@@ -139,7 +140,7 @@ class AV:
         return f"AV({sorted(self.roots)}|{sorted(self.inner)},{self.kind}{',' + self.cls if self.cls else ''})"
 
     def key(self):
-        return (self.roots, self.inner, self.kind, self.cls, tuple(p.key() for p in self.parts) if self.parts else None)
+        return (self.roots, self.inner, self.kind, self.cls, self.ecls, tuple(p.key() for p in self.parts) if self.parts else None)
 
 
 FRESH = AV()
@@ -156,7 +157,8 @@ def join(a, b):
     if a.parts and b.parts and len(a.parts) == len(b.parts):
         parts = tuple(join(x, y) for x, y in zip(a.parts, b.parts))
     return AV(a.roots | b.roots, a.kind if a.kind == b.kind else ("seq" if {a.kind, b.kind} <= {"arr", "seq"} else "unk"),
-              a.cls if a.cls == b.cls else None, parts, a.inner | b.inner)
+              a.cls if a.cls == b.cls else None, parts, a.inner | b.inner,
+              a.ecls if a.ecls == b.ecls else (b.ecls if a.ecls == "?empty" else (a.ecls if b.ecls == "?empty" else None)))
 
 
 def join_env(e1, e2):
@@ -419,6 +421,7 @@ class Analyzer:
         self.local_names = set()
         self.assign_log = []      # (lineno, name) rebinding / store log (for file=returned)
         self.unknown_syntax = []
+        self.frozen_assigns = []
 
     # ---------------------------------------------------------------------------------------------------
     def run(self):
@@ -465,7 +468,7 @@ class Analyzer:
             "global_stmts": sorted(self.global_stmts), "global_reads": self.global_reads, "setters": self.setters,
             "self_reads": self.self_reads, "self_writes": self.self_writes, "nondet": self.nondet,
             "file_writes": self.file_writes, "returns": self.returns, "assign_log": self.assign_log,
-            "unknown_syntax": self.unknown_syntax,
+            "unknown_syntax": self.unknown_syntax, "frozen_assigns": self.frozen_assigns,
         }
 
     # ---------------------------------------------------------------------------------------------------
@@ -639,6 +642,12 @@ class Analyzer:
                 self._class_attr_write(t.attr, av)
             else:
                 base = self.ev(t.value, env)
+                ci = self.pkg.resolve(base.cls) if base.cls else None
+                if isinstance(ci, ClassInfo) and ci.frozen:
+                    # assignment to a field of a @dataclass(frozen=True) instance raises FrozenInstanceError: no store happens
+                    if not any(x["line"] == stmt.lineno for x in self.frozen_assigns):
+                        self.frozen_assigns.append({"line": stmt.lineno, "text": _txt(stmt), "class": ci.qual})
+                    return
                 self.store(stmt, "attr-assign-on-object", base)
                 if av.reach:
                     self.weak_add(t.value, av, env)
@@ -652,7 +661,8 @@ class Analyzer:
             b = b.value
         if isinstance(b, ast.Name) and b.id in env:
             cur = env[b.id]
-            env[b.id] = AV(cur.roots, cur.kind if cur.kind not in ("scalar", "arr") else "unk", cur.cls, None, cur.inner | av.reach)
+            ecls = av.cls if cur.ecls in ("?empty", av.cls) and target_expr is b else None
+            env[b.id] = AV(cur.roots, cur.kind if cur.kind not in ("scalar", "arr") else "unk", cur.cls, None, cur.inner | av.reach, ecls)
         elif isinstance(b, ast.Attribute) and isinstance(b.value, ast.Name) and b.value.id == self.selfname:
             self._class_attr_write(b.attr, AV((), "unk", inner=av.reach))
 
@@ -662,7 +672,7 @@ class Analyzer:
             return SCALAR
         if av.kind == "arr":
             return AV(av.roots, "unk")        # a row view or a number
-        return AV(av.reach, "unk", inner=av.inner)
+        return AV(av.reach, "unk", inner=av.inner, cls=av.ecls if av.ecls != "?empty" else None)
 
     def s_If(self, s, env):
         self.ev(s.test, env)
@@ -937,7 +947,8 @@ class Analyzer:
 
     def e_List(self, e, env):
         roots, parts = self._container(e.elts, env)
-        return AV((), "seq" if not roots else "unk", inner=roots)
+        ecls = "?empty" if not parts else (parts[0].cls if all(p.cls == parts[0].cls for p in parts) else None)
+        return AV((), "seq" if not roots else "unk", inner=roots, ecls=ecls)
 
     e_Set = e_List
 
@@ -1057,8 +1068,8 @@ class Analyzer:
         if ik == "fancy" and k != "seq":
             k = "seq"
         if self.has_slice(e.slice) and base.kind == "seq" and not base.roots:
-            return AV((), k, inner=base.inner)       # slice of a list: a new list holding the same elements
-        return AV(base.reach, k, inner=base.inner)
+            return AV((), k, inner=base.inner, ecls=base.ecls)       # slice of a list: a new list holding the same elements
+        return AV(base.reach, k, inner=base.inner, cls=(base.ecls if base.ecls != "?empty" and not self.has_slice(e.slice) and not base.roots else None))
 
     # ---- calls
     def call_args(self, e, env):
@@ -1309,8 +1320,8 @@ class Analyzer:
             self.store(e, f"in-place-method .{m}()", base)
             if isinstance(f.value, ast.Name):
                 self.assign_log.append((e.lineno, f.value.id, "store"))
-            if m in CONTAINER_ADD and allroots and base.kind != "arr":
-                self.weak_add(f.value, AV(allroots, "unk"), env)
+            if m in CONTAINER_ADD and base.kind != "arr" and (allroots or base.ecls):
+                self.weak_add(f.value, AV(allroots, "unk", cls=(pos[0].cls if (m == "append" and len(pos) == 1) else None)), env)
             if m in ("pop", "popitem", "setdefault"):
                 return AV(base.inner, "unk", inner=base.inner)
             return SCALAR
@@ -1475,7 +1486,7 @@ def file_report(fi):
             out.append(rec)
             continue
         names_w = {n.id for n in ast.walk(val) if isinstance(n, ast.Name)} if val is not None else set()
-        rel = _relation(val, rv)
+        rel = _relation(val, rv, fi.node)
         # no rebinding / store into the written variable between the write and the return
         touched = [(l, nm, how) for (l, nm, how) in log if w["line"] < l <= ln and nm in names_w]
         if rel and not touched:
@@ -1488,7 +1499,7 @@ def file_report(fi):
     return out
 
 
-def _relation(w, r):
+def _relation(w, r, fnode=None):
     """syntactic relation between written expression w and returned expression r"""
     if w is None:
         return None
@@ -1498,12 +1509,27 @@ def _relation(w, r):
     # returned tuple/list containing the written variable
     if isinstance(r, (ast.Tuple, ast.List)) and any(_txt(x, 400) == wt for x in r.elts):
         return "element of the returned tuple"
+    relts = [_txt(x, 400) for x in r.elts] if isinstance(r, (ast.Tuple, ast.List)) else []
+    # values stored into the returned container:  r[key] = X  (X counts as a part of the returned value)
+    parts = []
+    if fnode is not None and isinstance(r, ast.Name):
+        for n in ast.walk(fnode):
+            if isinstance(n, ast.Assign) and len(n.targets) == 1 and isinstance(n.targets[0], ast.Subscript) and \
+                    isinstance(n.targets[0].value, ast.Name) and n.targets[0].value.id == r.id:
+                parts.append(_txt(n.value, 400))
+    if wt in parts:
+        return f"{wt} is stored into the returned {rt}"
     # projection of the returned value: <r>.values, <r>.round(k), <r>[...]
     b = w
     while isinstance(b, (ast.Attribute, ast.Subscript)) or (isinstance(b, ast.Call) and isinstance(b.func, ast.Attribute) and b.func.attr in ("round", "to_numpy", "join", "reset_index")):
         b = b.func.value if isinstance(b, ast.Call) else b.value
-        if _txt(b, 400) == rt:
+        bt = _txt(b, 400)
+        if bt == rt:
             return f"projection {wt} of the returned {rt}"
+        if bt in relts:
+            return f"projection {wt} of the element {bt} of the returned tuple"
+        if bt in parts:
+            return f"projection {wt} of {bt}, which is stored into the returned {rt}"
     # written = a combination that contains the returned variable as an argument (e.g. df_q.join(results))
     if isinstance(r, ast.Name) and any(isinstance(n, ast.Name) and n.id == r.id for n in ast.walk(w)):
         return f"{wt} contains the returned {rt}"
